@@ -207,10 +207,15 @@ def inversion_interferometer_from(
     -------
     An `Inversion` whose type is determined by the input `dataset` and `settings`.
     """
+    # The w-tilde formalism cannot be used without the optional module below. This is decided via a local
+    # variable, so the `settings` object passed in (or the shared default instance) is not modified.
+
+    w_tilde_available = True
+
     try:
         from autoarray.inversion.inversion import inversion_util_secret
     except ImportError:
-        settings.use_w_tilde = False
+        w_tilde_available = False
 
     if any(
         isinstance(linear_obj, AbstractLinearObjFuncList)
@@ -218,7 +223,7 @@ def inversion_interferometer_from(
     ):
         use_w_tilde = False
     else:
-        use_w_tilde = settings.use_w_tilde
+        use_w_tilde = settings.use_w_tilde and w_tilde_available
 
     if not settings.use_linear_operators:
         if use_w_tilde:
